@@ -156,6 +156,7 @@ from vc2_conformance.encoder.exceptions import (
     PictureBytesSpecifiedForLosslessModeError,
     InsufficientHQPictureBytesError,
     InsufficientLDPictureBytesError,
+    QuantizationIndexOutOfRangeError,
     LosslessUnsupportedByLowDelayError,
 )
 
@@ -700,6 +701,9 @@ def make_transform_data_hq_lossy(
                 8 * slice_size_scaler,
                 minimum_qindex,
             )
+            # (13.5.4) The qindex field of a high quality slice is 8 bits long
+            if qindex > 255:
+                raise QuantizationIndexOutOfRangeError()
             transform_data["hq_slices"].append(
                 make_hq_slice(
                     y_transform,
@@ -786,6 +790,9 @@ def make_transform_data_ld_lossy(picture_bytes, transform_coeffs, minimum_qindex
                 [y_coeffs, c_coeffs],
                 minimum_qindex=minimum_qindex,
             )
+            # (13.5.3.1) The qindex field of a low delay slice is 7 bits long
+            if qindex > 127:
+                raise QuantizationIndexOutOfRangeError()
             transform_data["ld_slices"].append(
                 make_ld_slice(
                     y_transform,
@@ -972,6 +979,9 @@ def make_picture_parse(
             except InsufficientHQPictureBytesError:
                 # Re-raise with codec features dict
                 raise InsufficientHQPictureBytesError(codec_features)
+            except QuantizationIndexOutOfRangeError:
+                # Re-raise with codec features dict
+                raise QuantizationIndexOutOfRangeError(codec_features)
 
         # NB: For simplicity, this implementation currently does not support
         # setting the slice prefix bytes to anything except zero since this is
@@ -995,6 +1005,9 @@ def make_picture_parse(
         except InsufficientLDPictureBytesError:
             # Re-raise with codec features dict
             raise InsufficientLDPictureBytesError(codec_features)
+        except QuantizationIndexOutOfRangeError:
+            # Re-raise with codec features dict
+            raise QuantizationIndexOutOfRangeError(codec_features)
 
         slice_bytes_fraction = Fraction(
             codec_features["picture_bytes"],
